@@ -1,8 +1,11 @@
 #!/bin/bash
 # run every seeded change against the quick check of its property; prints one line per change
+# usage: tools/all_mutants.sh [regex on the property id, e.g. 'C0[2349]|C11|C16']   (default: all; the full run takes about 3 h)
 cd /verif
+filter=${1:-.}
 for d in seeded/*/; do
   prop=$(python3 -c "import json;print(json.load(open('$d/meta.json'))['property'])")
+  echo "$prop" | grep -Eq "^($filter)$" || continue
   out=$(tools/try_mutant.sh $d/patch.diff $prop 2>&1)
   echo "$(basename $d): $(echo "$out" | grep '^== ' )  $(echo "$out" | grep -A1 '^VIOLATION' | sed -n 2p | cut -c1-100)"
 done
